@@ -232,6 +232,8 @@ def run(tier, seed, replay=None):
         while int(np.prod(Nq)) ** (2 if op_ else 1) > 70000:
             if all(v_ == ms for v_ in Nq): Nq.pop()                      # already the smallest modes: one mode fewer
             else: Nq[Nq.index(max(Nq))] = ms
+        if j in (5, 8, 11):                                             # engineered: powers whose floating-point logarithm falls just below the integer (3^5 = 243, 10^3 = 1000)
+            ms, Nq, op_ = [(3, [243], True), (3, [243], False), (10, [1000], True)][(5, 8, 11).index(j)]
         d_ = len(Nq)
         cplx_ = rng_q.random() < 0.3; dt_ = torch.complex128 if cplx_ else torch.float64
         desc = {"op": "to_qtt(mode_size)", "operator": op_, "N": Nq, "mode_size": ms, "dtype": str(dt_)}
@@ -246,7 +248,7 @@ def run(tier, seed, replay=None):
                 V.fail("to_qtt(mode_size=%d): the result does not have exactly the requested mode sizes" % ms, dict(desc, got_M=history.Mof(q_) if op_ else None, got_N=[int(v) for v in q_.N])); continue
             ref_ = xq.full().reshape(want_modes * (2 if op_ else 1))
             nrm_ = float(ref_.abs().pow(2).sum().sqrt()); err_ = float((q_.full() - ref_).abs().pow(2).sum().sqrt())
-            if err_ > 1e-10 * nrm_: V.fail("to_qtt(mode_size=%d): value differs from the dense reshape" % ms, dict(desc, rel_err=err_ / max(nrm_, 1e-300)))
+            if not (err_ <= 1e-10 * nrm_): V.fail("to_qtt(mode_size=%d): value differs from the dense reshape" % ms, dict(desc, rel_err=err_ / max(nrm_, 1e-300)))
             if snap_q.diff(xq): V.fail("to_qtt(mode_size) modified its operand", desc)
             dist["to_qtt mode_size=%d%s" % (ms, " operator" if op_ else "")] = dist.get("to_qtt mode_size=%d%s" % (ms, " operator" if op_ else ""), 0) + 1
         except Exception as ex:
